@@ -533,7 +533,23 @@ func c07LexerP(maxLen int, prefixes []string) *core.Space {
 				}
 				return true
 			}
-			ex.Explore(scenario, check)
+			var failing []int
+			if vec, replaying := core.ReplayChoices(); replaying {
+				check(scenario(nil))
+				check(scenario(vec))
+				failing = vec
+			} else {
+				ex.Explore(scenario, func(x *sched.Execution) bool {
+					ok := check(x)
+					if !ok {
+						failing = append([]int{}, x.Choices...)
+					}
+					return ok
+				})
+			}
+			if viol != nil {
+				viol.Choices = failing
+			}
 			res := core.Result{Trans: ex.Executions, States: len(outcomes), Nontrivial: ex.Executions > 1, Extra: map[string]int{"schedules": ex.Executions}}
 			if ex.Capped {
 				res.Extra["scenarios_capped"] = 1
